@@ -638,6 +638,14 @@ class PGFile:
             # Must resolve first level without resolve_symbol_by_name
             # as otherwise the override rule itself would be found.
             if "." in symbol_fqn:
+                if (
+                    isinstance(symbol, Terminal)
+                    and isinstance(symbol.recognizer, StringRecognizer)
+                    and symbol.recognizer.value == symbol_fqn
+                ):
+                    # Inline string match which contains a dot is named by
+                    # the matched string. It is not an override.
+                    continue
                 import_module_name, name = symbol_fqn.split(".", 1)
                 try:
                     imported_pg_file = self.imports[import_module_name]
